@@ -517,6 +517,8 @@ func runC04(c *Ctx) {
 	c04CanHaveLabelInputs(c, "C04-R5")
 	c04EveryBranchEmitted(c, "C04-R5")
 	c12PureAnalysis(c, "C04-R5")
+	c04SetAppend(c, "C04-R5")
+	c10ReadConsumes(c, "C04-R5")
 
 	c04Narrowing(c, "C04-R3", false)
 
@@ -576,6 +578,7 @@ func runC12(c *Ctx) {
 	c12SelectorLabelsConditional(c, "C12-R6")
 	c04CanHaveLabelInputs(c, "C12-R6")
 	c12PureAnalysis(c, "C12-R6")
+	c04SetAppend(c, "C12-R6")
 	c04NoExperimentalFlag(c, "C12-R2")
 	c04EveryBranchEmitted(c, "C12-R6")
 	c12JoinOperands(c, "C12-R7")
